@@ -19,7 +19,7 @@ func (c09) Size(tier string) Size {
 	if tier == "thorough" {
 		return Size{Batches: 32, Cases: 9000}
 	}
-	return Size{Batches: 8, Cases: 900}
+	return Size{Batches: 16, Cases: 600}
 }
 func (c09) Rule() string {
 	return "case = collection of 0..n resources (n <= 12 quick, <= 60 thorough) with unique IDs over random kinds, held as SoftCollection, WrapperCollection or Resources of soft / struct-backed resources; ID list = random subset (+ IDs not present) or empty; filter = nil or a well-typed tree from C10's generator; rules = list over attributes and id with and without '-', attribute values drawn from <= 3 distinct values so ties are common; every page 0..ceil(m/size)+1 for a random size (including 0) plus huge page numbers, and 3 shuffles of the input. Oracle = my own select / filter / stable-sort / slice; pages compared by rule-key tuples position by position (the library's sort need not be stable), exact ID sequence when the rules contain id, pages partition the matching set, result non-nil, input members and order unchanged. Also: degenerate filters (the zero filter 'filter={}' decodes to, an operator without a field, case variants of and/or: each allows nothing), and directed collections of 1100-4200 resources with page sizes 1023, 1024, 1025, n-1, n, n+1 and 5000 (no silent cap). Non-trivial = >= 2 matching resources and a non-empty page; distinct = hash of the scenario."
